@@ -272,7 +272,7 @@ def main():
     repo, outdir, statusfile = sys.argv[1], sys.argv[2], sys.argv[3]
     # further units live in sibling modules that register themselves
     sys.path.insert(0, HERE)
-    for modname in ("gen_init", "gen_umn", "gen_sites", "gen_zip"):
+    for modname in ("gen_init", "gen_umn", "gen_sites", "gen_zip", "gen_conn"):
         if os.path.exists(os.path.join(HERE, modname + ".py")):
             __import__(modname).register_units(UNITS, sys.modules[__name__])
     os.makedirs(outdir, exist_ok=True)
